@@ -1,7 +1,7 @@
 (* Extract/Driver.v — dispatch : sexp -> sexp, the single entry point of the extracted model *)
 From Coq Require Import List Bool Ascii String ZArith.
 From FM Require Import Base.Result Base.Str Base.Sexp Base.AstOp Model.Ast Model.FM Model.Ctc
-     Model.Queries Model.Sem Model.Ops Extract.Codec.
+     Model.Queries Model.Sem Model.Ops Model.EqHash Extract.Codec.
 Import ListNotations.
 Open Scope string_scope.
 
@@ -106,6 +106,33 @@ Definition op_sem (m : fm) : sexp :=
      e_tag "confs" [SList (map (fun b => SList (map SStr (selected_names (root m) b)))
                                (confs (root m)))]].
 
+(* suite Q2 (C20): equality / hash keys of two models and of their elements *)
+Definition e_matrix {A B} (f : A -> B -> bool) (l1 : list A) (l2 : list B) : sexp :=
+  SList (map (fun a => e_bits (map (f a) l2)) l1).
+
+Definition hk_eqb (a b : string * list string * list rkey * list string) : bool :=
+  match a, b with
+  | (r1, f1, k1, c1), (r2, f2, k2, c2) =>
+      String.eqb r1 r2 && list_eqb String.eqb f1 f2 && list_eqb rkey_eqb k1 k2
+      && list_eqb String.eqb c1 c2
+  end.
+
+Definition op_eqq (a b : fm) : sexp :=
+  e_tag "eqq"
+    [e_tag "eq" [e_bool (fm_eqb str_lower a b)];
+     e_tag "eq_sym" [e_bool (fm_eqb str_lower b a)];
+     e_tag "eq_refl" [e_bool (fm_eqb str_lower a a && fm_eqb str_lower b b)];
+     e_tag "hash_eq" [e_bool (hk_eqb (fm_hash_key str_lower a) (fm_hash_key str_lower b))];
+     e_tag "features_eq" [e_matrix feature_eqb (get_features a) (get_features b)];
+     e_tag "relations_eq" [e_matrix relation_eqb (fm_relations a) (fm_relations b)];
+     e_tag "relations_hash_eq"
+       [e_matrix (fun x y => rkey_eqb (relation_hash_key x) (relation_hash_key y))
+                 (fm_relations a) (fm_relations b)];
+     e_tag "relations_lt"
+       [e_matrix (fun x y => rkey_ltb (relation_sort_key x) (relation_sort_key y))
+                 (fm_relations a) (fm_relations b)];
+     e_tag "ctcs_eq" [e_matrix (ctc_eqb str_lower) (ctcs a) (ctcs b)]].
+
 Definition bad (msg : string) : sexp := e_tag "bad-request" [SStr msg].
 
 Definition dispatch (req : sexp) : sexp :=
@@ -129,6 +156,14 @@ Definition dispatch (req : sexp) : sexp :=
       else if String.eqb op "sem" then
         match args with
         | [m] => match d_fm m with Some m' => op_sem m' | None => bad "fm" end
+        | _ => bad "arity"
+        end
+      else if String.eqb op "eqq" then
+        match args with
+        | [m1; m2] => match d_fm m1, d_fm m2 with
+                      | Some a, Some b => op_eqq a b
+                      | _, _ => bad "fm"
+                      end
         | _ => bad "arity"
         end
       else if String.eqb op "echo_fm" then
